@@ -436,7 +436,7 @@ Definition enc_res (x : res bam) : Val :=
 Definition dec_cap (v : Val) : option nat :=
   match getOptZ v with Some z => Some (Z.to_nat z) | None => None end.
 
-(* cfg = [multi; qflag; yield_invalid; yield_overflow; every_fragment_as_molecule; cap; old_qflag_wrapper] *)
+(* cfg = [multi; qflag; yield_invalid; yield_overflow; every_fragment_as_molecule; cap] *)
 Definition run_pipeline (v : Val) : Val :=
   let cfg := nthV 0 v in
   let multi_b := getB (nthV 0 cfg) in
